@@ -84,8 +84,12 @@ class Run:
     def map(self, func_name, cases, chunk=None):
         if chunk is None:
             chunk = max(1, min(16, len(cases) // (pool.N_WORKERS * 4) or 1))
+        stop_if = None
+        if os.environ.get("VERIF_STOP_AT_FIRST"):   # validation of seeded changes only: stop at the first violation that is not a known finding
+            def stop_if(r):
+                return any(match_known(self.prop, v, self.known) is None for v in (r.get("violations") or []))
         res = pool.run_cases(self.mod.__name__, func_name, cases, REPO, chunk=chunk,
-                             seed=self.seed, deadline=self.deadline)
+                             seed=self.seed, deadline=self.deadline, stop_if=stop_if)
         if any(r is None for r in res):
             self.capped = True
         return res
